@@ -407,6 +407,36 @@ pub struct SplitPlan {
     pub order: Vec<usize>,
 }
 
+/// `[k ]molar_mass of <formula>` with a generated formula, kept only if the tree under test answers it
+/// as a query against the bundled database (a spelling that is also a unit name, or one the formula
+/// reader refuses, is not a sound input for this phase: the caller keeps its fixed text then)
+fn formula_text(t: &mut crate::gen::query::Tape) -> Option<String> {
+    const ELEMENTS: [&str; 16] = ["H", "C", "N", "O", "Na", "Cl", "Fe", "S", "K", "Ca", "He", "Hg", "Si", "Mg", "Al", "Cu"];
+    let k = 1 + t.pick(4);
+    let mut f = String::new();
+    for _ in 0..k {
+        f.push_str(ELEMENTS[t.pick(ELEMENTS.len())]);
+        match t.pick(10) {
+            0..=2 => {}
+            3..=5 => f.push_str(&format!("{}", 2 + t.pick(8))),
+            _ => f.push_str(&format!("{}", 10 + t.pick(190))),
+        }
+    }
+    let text = if t.chance(25) { format!("{} molar_mass of {}", 2 + t.pick(5), f) } else { format!("molar_mass of {}", f) };
+    thread_local! {
+        static CTX: Option<rink_core::Context> = crate::rinkx::try_new_ctx().ok();
+    }
+    let ok = CTX.with(|c| match c {
+        Some(ctx) => matches!(crate::rinkx::eval_line(ctx, &text), crate::rinkx::Out::Reply(_)),
+        None => false,
+    });
+    if ok {
+        Some(text)
+    } else {
+        None
+    }
+}
+
 pub fn split_plan(tape: &[u32]) -> SplitPlan {
     let mut t = crate::gen::query::Tape::new(tape);
     let n = 2 + t.pick(9);
@@ -462,6 +492,14 @@ pub fn split_plan(tape: &[u32]) -> SplitPlan {
                 "3 molar_mass of CH4",
             ][t.pick(8)]
             .to_string();
+            // more often than not a formula from a grammar instead: one to four element symbols, each
+            // with no count, a one-digit or a several-digit count, the same element possibly twice
+            // (`C12H22O11`, `CH3COOH`); the loader has to find the elements behind every such spelling
+            if t.chance(60) {
+                if let Some(f) = formula_text(&mut t) {
+                    text = f;
+                }
+            }
             refs.clear();
         }
         units.push((name.clone(), format!("{} {}\n", name, text), refs));
@@ -532,6 +570,17 @@ pub fn check_split(c: &SplitCase, st: &mut Stats, known: &BTreeSet<String>) -> C
     let cwd_to_cfg = (0..n).filter(|i| plan.place[*i] == 0 && plan.units[*i].2.iter().any(|j| plan.place[*j] == 1)).count();
     st.evals(2);
     st.class("cli_split");
+    if plan.units.iter().any(|u| u.1.contains(" of ")) {
+        st.class("cli_split_refers_to_substance_or_formula");
+    }
+    if plan.units.iter().any(|u| {
+        u.1.split(" of ").nth(1).map_or(false, |f| {
+            let b = f.trim().as_bytes();
+            b.windows(2).any(|w| w[0].is_ascii_digit() && w[1].is_ascii_digit())
+        })
+    }) {
+        st.class("cli_split_formula_with_several_digit_count");
+    }
     if cfg_to_cwd > 0 {
         st.class("cli_split_config_file_refers_to_cwd_file");
     }
